@@ -83,6 +83,7 @@ class World:
         self.contracts = {}
         self.loop_contracts = {}
         self.loop_factories = {}
+        self.after_loop = {}        # (qual, loop ordinal) -> MergeC: join the paths right after that loop
         self.default_loop = None        # LoopC used for cut loops without a contract of their own
         self.merge_factories = {}       # (qual, loop ordinal) -> fn(ip, iteration index) -> (subkey, MergeC) | None
         self.externals = {}
